@@ -223,4 +223,51 @@ func init() {
 		Technique: "runtime monitoring: crash/CPU/heap monitors + checkptr on generated hostile inputs (fixture-seeded mutation, exhaustive truncation)",
 		DesignRef: "DESIGN.md §3 C19",
 	})
+	add(Spec{
+		PropSpec: vlib.PropSpec{
+			ID: "C01", Level: "exploration",
+			Rule: decodeCorpus + " total phase: each (type, input) is decoded under all 16 combinations of Lazy/NoCopy/Pool/DecodeStreamsAsDatagrams (recovery on), followed by a PRNG-ordered program of read-only uses with repeats (Layers, Layer of own and foreign types, LayerClass over 7 classes, Link/Network/Transport/Application/ErrorLayer, Metadata, Data, VerifyChecksums, flows, per layer LayerContents/Payload, VerifyChecksum; on 3 of the 16 option sets also String, Dump, LayerString/LayerDump/LayerGoString and %v/%+v of every layer), a 64 KiB tier, and every prefix of one seed per type. Oracles: no panic / fatal error / CPU-heap runaway; error-layer bookkeeping (every DecodeFailure or ErrorLayer-implementing layer is last, is what ErrorLayer() returns, ErrorLayer() is an element of Layers()); two independent could-not-decode witnesses (the same input panics with recovery off; DecodeFromBytes of the first layer returns an error) imply a non-nil error layer; error-ness agrees across Lazy/NoCopy/Pool for non-empty inputs. wellformed phase: packets built byte by byte with correct lengths and checksums must decode with a nil error layer and no truncation flag under all 16 option sets. Non-trivial = packet with >= 2 layers or an error layer; distinct by (type, input hash).",
+			Assumptions: []string{"'everything decoded => error layer nil' is asserted only where it is known by construction (well-formed constructed packets)", "checkptr instrumentation is on"},
+			Phases: []vlib.Phase{
+				{Name: "total", Bin: "vchild", Quick: 16, Thorough: 16},
+				{Name: "wellformed", Bin: "vchild", Quick: 8, Thorough: 16},
+			},
+			Require: []string{"prefixes_enumerated", "well_formed_packets", "corpus_layer_types_with_fixture_seeds"},
+		},
+		LevelText: "Runtime monitoring: crash monitor, CPU/heap watchdog and checkptr around decoding and every later read-only use for every registered first layer type and all recovery-on option sets, plus an error-layer bookkeeping monitor with independent witnesses.",
+		LevelNote: trusted,
+		Technique: "runtime monitoring: crash/CPU/heap monitors + checkptr + invariant monitor (error-layer bookkeeping) over a fixture-seeded mutation corpus",
+		DesignRef: "DESIGN.md §3 C01",
+	})
+	add(Spec{
+		PropSpec: vlib.PropSpec{
+			ID: "C02", Level: "exploration",
+			Rule: decodeCorpus + " determinism phase: for each (type, input, one of the 16 recovery-on option sets): the canonical signature (layer types, every field of every layer incl. unexported ones, contents, payloads, special-layer indices, metadata, Data(), String()) of the packet decoded from an exact copy is compared with (1) a second decode after 1..5 other corpus packets of any type were decoded and rendered, (1b) a decode of the same bytes embedded in a larger buffer with other content behind them (spare capacity), (2) a decode from a read-only mmap'ed region that ends at an inaccessible guard page, followed by the whole read-only accessor program of C01 (VerifyChecksums, String, Dump, LayerGoString ...): a write faults (write-to-input), a read past the end faults (read-beyond-input); the buffer is byte-compared afterwards. concurrent phase (race build, GOMAXPROCS=8): (3) 4..8 goroutines decode overlapping sets of inputs simultaneously and compare with the sequential signatures; (4) 4..8 goroutines run the accessor program incl. VerifyChecksums (network layer attached) and String on ONE eager packet (Default and NoCopy): equal answers, packet signature, Data() and the caller's buffer unchanged afterwards, race detector log parsed. Non-trivial = packet with >= 3 layers (determinism) / >= 3 layers and a checksum-carrying layer (shared readers); distinct by (type, input hash).",
+			Assumptions: []string{"signature equality is the definition of 'identical packet' (nil and empty slices equal; addresses and capacities ignored; DecodeFailure stack text ignored)", "debug.SetPanicOnFault turns faults on the read-only/guard pages into recoverable panics"},
+			Phases: []vlib.Phase{
+				{Name: "determinism", Bin: "vchild", Quick: 16, Thorough: 16},
+				{Name: "concurrent", Bin: "vchild", Race: true, Quick: 2, Thorough: 4, Procs: 8, Parallel: 2},
+			},
+			Require: []string{"read_only_placements", "concurrent_decodes", "shared_packet_reader_groups", "shared_packets_with_checksum_layers"},
+		},
+		LevelText: "Runtime monitoring with sanitizers: read-only input pages + guard page (writes and over-reads fault), the Go race detector over concurrent decoders and concurrent readers of one eager packet, and a self-differential oracle (canonical signatures) for history and placement independence.",
+		LevelNote: trusted,
+		Technique: "runtime monitoring: read-only/guard-page memory sanitizer, Go race detector, self-differential signature oracle",
+		DesignRef: "DESIGN.md §3 C02",
+	})
+	add(Spec{
+		PropSpec: vlib.PropSpec{
+			ID: "C03", Level: "exploration",
+			Rule: decodeCorpus + " For every non-empty (type, input) and NoCopy/DecodeStreamsAsDatagrams on/off, accessor programs are run side by side on the eager packet and on a fresh lazy packet: for every own layer type the program that starts with Layer(that type); every special-layer accessor as first call; every ordered pair of Layer(own type) calls for packets of <= 5 layers; and PRNG programs of 1..12 calls (with immediate repeats) over {Layer(own/foreign type), LayerClass(7 classes), LinkLayer, NetworkLayer, TransportLayer, ApplicationLayer, ErrorLayer, Layers, String, Dump}. After every step the results are compared (nil-ness, layer type, all field values, contents, payload; whole list for Layers; text for String/Dump), and at the end the full packet signatures incl. truncation flag and String(). Non-trivial = packet with >= 3 layers and a program whose first call does not request all layers; distinct by (type, input, program) hash.",
+			Assumptions: []string{"Dump() is not compared when the packet ends in a DecodeFailure: its text contains the goroutine stack of the recovered panic"},
+			Phases: []vlib.Phase{
+				{Name: "lazy", Bin: "vchild", Quick: 16, Thorough: 16},
+			},
+			Require: []string{"accessor_programs"},
+		},
+		LevelText: "Runtime monitoring by differential execution: the same real decoder in its lazy and eager configuration is driven by generated accessor programs and every observable result is compared step by step.",
+		LevelNote: trusted,
+		Technique: "runtime monitoring: differential oracle between two configurations (lazy vs eager) under generated accessor programs",
+		DesignRef: "DESIGN.md §3 C03",
+	})
 }
